@@ -260,18 +260,29 @@ def judge(seed, z_force=None):
         e1 = PromoleculeDensity((els, pos)).rho(pts[:1])
         if np.shape(e0) != (0,) or np.shape(e1) != (1,) or not np.allclose(e1, full[:1], rtol=1e-6, atol=0):
             return f"rho of an empty point set has shape {np.shape(e0)}, of a single point {np.shape(e1)} (value {e1!r} vs {full[:1]!r})"
+        # the unit option of from_arrays: 'angstrom' is the default; 'bohr' is either ignored (as the library has always done) or converts
+        # bohr to Angstrom — nothing else
+        w_def = StockholderWeight.from_arrays(els[:k], pos[:k], els[k:], pos[k:]).weights(pts)
+        w_ang = StockholderWeight.from_arrays(els[:k], pos[:k], els[k:], pos[k:], unit="angstrom").weights(pts)
+        w_bohr = StockholderWeight.from_arrays(els[:k], pos[:k], els[k:], pos[k:], unit="bohr").weights(pts)
+        B2A = 0.5291772108
+        w_conv = StockholderWeight.from_arrays(els[:k], pos[:k] * np.float32(B2A), els[k:], pos[k:] * np.float32(B2A)).weights(pts)
+        if not np.array_equal(w_def, w_ang) or not (np.allclose(w_bohr, w_def, rtol=1e-6, atol=0) or np.allclose(w_bohr, w_conv, rtol=1e-4, atol=1e-7)):
+            return "StockholderWeight.from_arrays(unit=...) gives weights that are neither those of the coordinates as given nor of the coordinates converted from bohr"
         # the background given as the third POSITIONAL argument of StockholderWeight
         wpos = StockholderWeight(PromoleculeDensity((els[:k], pos[:k])), PromoleculeDensity((els[k:], pos[k:])), 1e-2).weights(pts)
         if not np.allclose(wpos, ra / (ra + rb + np.float32(1e-2)), rtol=rt, atol=0):
             return "StockholderWeight(a, b, 0.01) (background given positionally) is not interior/(interior+exterior+background)"
         # the value at a point does not depend on how many other points are evaluated in the same call
         if seed % 4 == 0:
-            big = np.tile(pts, (70001 // len(pts) + 1, 1))[:70001]
-            rbig = PromoleculeDensity((els[:6], pos[:6])).rho(big)
             rsmall = PromoleculeDensity((els[:6], pos[:6])).rho(pts)
-            if not np.allclose(rbig, np.tile(rsmall, 70001 // len(pts) + 1)[:70001], rtol=1e-6, atol=0):
-                bad = int(np.argmax(np.abs(rbig - np.tile(rsmall, 70001 // len(pts) + 1)[:70001])))
-                return f"density at a point depends on the size of the batch: point #{bad} of a 70001-point call gives {rbig[bad]} instead of {rsmall[bad % len(pts)]}"
+            for nbig in (70001, 8193, 16385, 4097, 65537, 32768 + int(rng.randint(0, 3))):      # around powers of two as well
+                big = np.tile(pts, (nbig // len(pts) + 1, 1))[:nbig]
+                rbig = PromoleculeDensity((els[:6], pos[:6])).rho(big)
+                want_big = np.tile(rsmall, nbig // len(pts) + 1)[:nbig]
+                if np.shape(rbig) != (nbig,) or not np.allclose(rbig, want_big, rtol=1e-6, atol=0):
+                    bad = int(np.argmax(np.abs(rbig - want_big)))
+                    return f"density at a point depends on the size of the batch: point #{bad} of a {nbig}-point call gives {rbig[bad]} instead of {want_big[bad]}"
     except Exception as ex:  # noqa
         return f"raised {type(ex).__name__}: {ex}"
     return None
@@ -287,6 +298,30 @@ def search(ctx, budget):
         ctx.fail("C05:table", "interpolation table is not 103 rows of positive values", {"kind": "table"})
     if not np.allclose(np.diff(dom), dom[1] - dom[0], rtol=2e-3):
         ctx.fail("C05:table-domain", "table nodes are not uniformly spaced", {"kind": "table"})
+    # every row is the density of ITS element: the number of electrons under the tabulated curve (2 pi * integral of rho(u) sqrt(u) du over the
+    # table, u = r^2 in bohr^2; the unresolved core cusp costs the heavy atoms several electrons) grows by 0.37 .. 0.95 from each element
+    # to the next on the shipped table — a row that is a copy of its neighbour or belongs to another element breaks the ladder
+    ne = 2 * np.pi * np.trapezoid(rho.astype(np.float64) * np.sqrt(dom)[None, :], dom, axis=1)
+    step = np.diff(ne)
+    if not (abs(ne[0] - 1.0) < 0.05 and np.all(step > 0.25) and np.all(step < 1.2)):
+        z_bad = int(np.argmax((step <= 0.25) | (step >= 1.2))) + 2
+        ctx.fail("C05:table-rows", f"electron count under the tabulated density does not rise by about one from Z={z_bad - 1} to Z={z_bad} "
+                 f"({ne[z_bad - 2]:.3f} -> {ne[z_bad - 1]:.3f}): a table row does not belong to its element", {"kind": "table"})
+    # FIXED input (recorded finding): evaluation points thousands of Angstrom from the atoms — the density there is the tail value of the
+    # table, certainly not larger than at 12 A
+    from chmpy.interpolate.density import PromoleculeDensity
+    ctx.case({"kind": "far-point"})
+    try:
+        d8 = PromoleculeDensity((np.array([8]), np.zeros((1, 3))))
+        near = float(d8.rho(np.array([[12.0, 0.0, 0.0]], dtype=np.float32))[0])
+        for dist in (5000.0, 7600.0, 7700.0, 1.0e6):
+            far = float(d8.rho(np.array([[dist, 0.0, 0.0]], dtype=np.float32))[0])
+            if not (0.0 < far <= near * (1 + 1e-6)):
+                ctx.fail("C05:far-point-index-overflow", f"rho of a single O atom at a point {dist:g} A away is {far!r}; at 12 A it is {near!r} and the tabulated "
+                         "atomic density decreases monotonically to its tail value", {"kind": "far-point", "distance": dist})
+                break
+    except Exception as ex:  # noqa
+        ctx.fail("C05:far-point", f"far-point evaluation raised {type(ex).__name__}: {ex}", {"kind": "far-point"})
     n = 60 if budget == "quick" else 1200
     for i in range(n):
         seed = ctx.rng.randrange(1 << 30)
